@@ -20,8 +20,6 @@ Import ListNotations.
 (* ------------------------------------------------------------------------------------------ *)
 (* Side conditions                                                                             *)
 
-(* the name does not start with a backslash *)
-Definition name_ok (name : str) := match name with c :: _ => c <> c_bsl | [] => True end.
 (* the writer uses per-bit names *)
 Definition is_bus {P} (c : cab P) := c_array c = true \/ (2 <= length (c_wires c))%nat.
 
@@ -72,26 +70,26 @@ Qed.
 (* ------------------------------------------------------------------------------------------ *)
 (* The reader on bit nets is EdifCable.assemble                                                *)
 
-Lemma read_more_bits {P} ident name : name_ok name ->
+Lemma read_more_bits {P} ident name :
   forall (bits : list (N * list P)) c, c_array c = true ->
   read_more c (map (bit_net ident name) bits) = Some (assemble_from c bits).
 Proof.
-  intros Hn. induction bits as [|[i w] t IH]; intros c Harr; [reflexivity|].
+  induction bits as [|[i w] t IH]; intros c Harr; [reflexivity|].
   cbn [map bit_net read_more assemble_from].
-  rewrite (bitname_inverse ident name i Hn).
+  rewrite (bitname_inverse ident name i).
   rewrite (mb_add_merge c i w Harr).
   apply IH. rewrite mb_merge_array. exact Harr.
 Qed.
 
-Lemma read_cable_bits {P} ident name : name_ok name ->
+Lemma read_cable_bits {P} ident name :
   forall (bits : list (N * list P)),
   read_cable (map (bit_net ident name) bits) =
   option_map (fun c => (name, ident, c)) (assemble bits).
 Proof.
-  intros Hn [|[i w] t]; [reflexivity|].
+  intros [|[i w] t]; [reflexivity|].
   cbn [map bit_net]. unfold read_cable.
-  rewrite (bitname_inverse ident name i Hn), mb_add_first.
-  rewrite (read_more_bits ident name Hn t (mkcab i true [w]) eq_refl). reflexivity.
+  rewrite (bitname_inverse ident name i), mb_add_first.
+  rewrite (read_more_bits ident name t (mkcab i true [w]) eq_refl). reflexivity.
 Qed.
 
 (* ------------------------------------------------------------------------------------------ *)
@@ -131,13 +129,13 @@ Proof.
 Qed.
 
 (* the invariant suggested for the direct proof, as a statement about the reader *)
-Lemma read_more_inorder {P} ident name : name_ok name ->
+Lemma read_more_inorder {P} ident name :
   forall (ws2 ws1 : list (list P)) lo, ws1 <> [] ->
   read_more (mkcab lo true ws1) (emit_from ident name (lo + N.of_nat (length ws1)) ws2) =
   Some (mkcab lo true (ws1 ++ ws2)).
 Proof.
-  intros Hn ws2 ws1 lo Hne. rewrite emit_from_bits.
-  rewrite (read_more_bits ident name Hn _ (mkcab lo true ws1) eq_refl).
+  intros ws2 ws1 lo Hne. rewrite emit_from_bits.
+  rewrite (read_more_bits ident name _ (mkcab lo true ws1) eq_refl).
   rewrite assemble_from_inorder by exact Hne. reflexivity.
 Qed.
 
@@ -145,26 +143,26 @@ Qed.
 (* 1. a bus written by the writer is read back                                                 *)
 
 Theorem bus_roundtrip : forall P (ident name : str) (c : cab P),
-  name_ok name -> c_wires c <> [] -> is_bus c ->
+  c_wires c <> [] -> is_bus c ->
   read_cable (emit_cable ident name c) = Some (name, ident, mkcab (c_lower c) true (c_wires c)).
 Proof.
-  intros P ident name c Hn Hne Hbus.
+  intros P ident name c Hne Hbus.
   rewrite (emit_cable_bus ident name c Hbus), emit_from_bits.
-  rewrite (read_cable_bits ident name Hn), (assemble_inorder _ _ Hne). reflexivity.
+  rewrite (read_cable_bits ident name), (assemble_inorder _ _ Hne). reflexivity.
 Qed.
 
 (* ------------------------------------------------------------------------------------------ *)
 (* 2. ... whatever the order of the bit nets in the file                                       *)
 
 Theorem bus_roundtrip_any_order : forall P ident name (c : cab P) nets,
-  name_ok name -> c_wires c <> [] -> is_bus c ->
+  c_wires c <> [] -> is_bus c ->
   Permutation nets (emit_cable ident name c) ->
   read_cable nets = Some (name, ident, mkcab (c_lower c) true (c_wires c)).
 Proof.
-  intros P ident name c nets Hn Hne Hbus Hp.
+  intros P ident name c nets Hne Hbus Hp.
   rewrite (emit_cable_bus ident name c Hbus), emit_from_bits in Hp.
   apply Permutation_map_inv in Hp. destruct Hp as (bits' & -> & Hp).
-  rewrite (read_cable_bits ident name Hn).
+  rewrite (read_cable_bits ident name).
   assert (Hne' : bits' <> []).
   { intros ->. apply Permutation_sym, Permutation_nil in Hp.
     exact (bits_from_nonempty _ _ Hne Hp). }
@@ -178,30 +176,30 @@ Qed.
 (* 3. any subset of the bits, in any order                                                     *)
 
 Theorem bus_subset_any_order : forall P ident name (bits : list (N * list P)) nets c,
-  name_ok name -> NoDup (idxs bits) -> bits <> [] ->
+  NoDup (idxs bits) -> bits <> [] ->
   nets = map (fun '(i, w) => (bit_ident ident i, bit_name name i, w)) bits ->
   read_cable nets = Some (name, ident, c) <-> assemble bits = Some c.
 Proof.
-  intros P ident name bits nets c Hn _ _ ->.
+  intros P ident name bits nets c _ _ ->.
   change (map _ bits) with (map (bit_net (P := P) ident name) bits).
-  rewrite (read_cable_bits ident name Hn).
+  rewrite (read_cable_bits ident name).
   destruct (assemble bits) as [c'|]; cbn [option_map]; split; intros H;
     try discriminate; inversion H; reflexivity.
 Qed.
 
 (* existence: the nets are always read as ONE cable *)
 Corollary bus_subset_read : forall P ident name (bits : list (N * list P)) nets,
-  name_ok name -> NoDup (idxs bits) -> bits <> [] ->
+  NoDup (idxs bits) -> bits <> [] ->
   nets = map (fun '(i, w) => (bit_ident ident i, bit_name name i, w)) bits ->
   exists c, read_cable nets = Some (name, ident, c).
 Proof.
-  intros P ident name bits nets Hn Hnd Hne E.
+  intros P ident name bits nets Hnd Hne E.
   destruct (assemble_nonempty P bits Hne) as (c & Hc). exists c.
-  apply (bus_subset_any_order P ident name bits nets c Hn Hnd Hne E). exact Hc.
+  apply (bus_subset_any_order P ident name bits nets c Hnd Hne E). exact Hc.
 Qed.
 
 Corollary bus_subset_positions : forall P ident name (bits : list (N * list P)) nets c,
-  name_ok name -> NoDup (idxs bits) -> bits <> [] ->
+  NoDup (idxs bits) -> bits <> [] ->
   nets = map (fun '(i, w) => (bit_ident ident i, bit_name name i, w)) bits ->
   read_cable nets = Some (name, ident, c) ->
      c_lower c = min_idx (idxs bits)
@@ -211,8 +209,8 @@ Corollary bus_subset_positions : forall P ident name (bits : list (N * list P)) 
   /\ (forall n, (n < length (c_wires c))%nat ->
         nth n (c_wires c) [] = lookup (c_lower c + N.of_nat n) bits).
 Proof.
-  intros P ident name bits nets c Hn Hnd Hne E H.
-  apply (bus_subset_any_order P ident name bits nets c Hn Hnd Hne E) in H.
+  intros P ident name bits nets c Hnd Hne E H.
+  apply (bus_subset_any_order P ident name bits nets c Hnd Hne E) in H.
   destruct (multibit_assemble P bits c Hnd H) as (H1 & H2 & H3 & H4).
   repeat split; try assumption. apply multibit_assemble_nth; assumption.
 Qed.
@@ -255,17 +253,29 @@ Example bus_amp_ident_read :
   let ident := s2l "&_x" in
   let name := s2l "_x" in
   let c := mkcab 0%N true [[1]; [2]]%nat in
-     name_ok name /\ is_bus c /\ c_wires c <> []
+     is_bus c /\ c_wires c <> []
   /\ starts_amp_us (ident ++ [c_us]) = true
   /\ emit_cable ident name c = [(s2l "&_x_0_", s2l "_x[0]", [1]); (s2l "&_x_1_", s2l "_x[1]", [2])]%nat
   /\ net_bit (s2l "&_x_0_") (s2l "_x[0]") = Some (Some 0%N, s2l "_x", s2l "&_x")
   /\ net_bit (s2l "&_x_1_") (s2l "_x[1]") = Some (Some 1%N, s2l "_x", s2l "&_x")
   /\ read_cable (emit_cable ident name c) = Some (name, ident, c).
 Proof.
-  cbv zeta. split; [vm_compute; discriminate|]. split; [left; reflexivity|].
+  cbv zeta. split; [left; reflexivity|].
   split; [discriminate|].
   repeat split; vm_compute; reflexivity.
 Qed.
+
+(* a'. (repaired K9) a bus whose NAME starts with a backslash: "\x[i]" is bit i of "\x" (it used to be
+   recognised only in the form "\x [i]"); the escaped scalar "\x[3] " is still no bit *)
+Example bus_backslash_read :
+  let ident := s2l "x" in
+  let name := s2l "\x" in
+  let c := mkcab 0%N true [[1]; [2]]%nat in
+     emit_cable ident name c = [(s2l "x_0_", s2l "\x[0]", [1]); (s2l "x_1_", s2l "\x[1]", [2])]%nat
+  /\ net_bit (s2l "x_1_") (s2l "\x[1]") = Some (Some 1%N, s2l "\x", s2l "x")
+  /\ read_cable (emit_cable ident name c) = Some (name, ident, c)
+  /\ net_bit (s2l "x_3_") (s2l "\x[3] ") = Some (None, s2l "\x[3] ", s2l "x").
+Proof. cbv zeta. repeat split; vm_compute; reflexivity. Qed.
 
 (* b. a SCALAR cable named "x[1]" with identifier "x_1_": name, identifier, lower index and
    array flag all change *)
@@ -285,14 +295,14 @@ Example bus_roundtrip_example :
   let nets := emit_cable ident name c in
   let scrambled := [nth 2 nets ([], [], []); nth 0 nets ([], [], []);
                     nth 3 nets ([], [], []); nth 1 nets ([], [], [])] in
-     name_ok name /\ c_wires c <> [] /\ is_bus c
+     c_wires c <> [] /\ is_bus c
   /\ nets = [(s2l "data_3_", s2l "data[3]", [30; 31]); (s2l "data_4_", s2l "data[4]", []);
              (s2l "data_5_", s2l "data[5]", [50]); (s2l "data_6_", s2l "data[6]", [60; 61; 62])]%nat
   /\ Permutation scrambled nets
   /\ read_cable nets = Some (name, ident, mkcab 3%N true (c_wires c))
   /\ read_cable scrambled = Some (name, ident, mkcab 3%N true (c_wires c)).
 Proof.
-  cbv zeta. split; [vm_compute; discriminate|].
+  cbv zeta.
   split; [discriminate|]. split; [right; cbn; lia|].
   split; [vm_compute; reflexivity|]. split; [|split; vm_compute; reflexivity].
   vm_compute.
